@@ -3,16 +3,20 @@
 # apply each refactor patch to the scratch worktree, run the relevant checks, revert
 export GOFLAGS=-mod=mod GOPROXY=off GOSUMDB=off GOTOOLCHAIN=local VF_REPO=/var/tmp/repo_rf VF_NO_SELFTEST=1 VF_EVIDENCE_DIR=/var/tmp/rf_evidence 
 declare -A PROPS
-PROPS[1]="C03 C04 C06 C07 C08 C10 C18 C19"
-PROPS[2]="C01 C02 C05 C07 C08 C12 C18 C19"
-PROPS[3]="C02 C03 C04 C08 C09 C10 C14 C18"
-PROPS[4]="C01 C11 C13 C17 C18 C19 C20"
-PROPS[5]="C01 C02 C04 C05 C07 C10 C13 C16 C17 C18"
-PROPS[6]="C01 C03 C05 C08 C12 C14 C17 C18 C19"
-PROPS[7]="C03 C05 C06 C07 C11 C17 C18 C19 C20"
-PROPS[8]="C03 C04 C05 C08 C09 C10 C11 C16 C18"
+PROPS[1]="C02 C03 C04 C05 C06 C07 C08 C10 C18 C19"
+PROPS[2]="C01 C02 C03 C05 C07 C08 C12 C18 C19"
+PROPS[3]="C02 C03 C04 C05 C08 C09 C10 C14 C18"
+PROPS[4]="C01 C02 C03 C05 C11 C13 C17 C18 C19 C20"
+PROPS[5]="C01 C02 C03 C04 C05 C07 C10 C13 C16 C17 C18"
+PROPS[6]="C01 C02 C03 C05 C08 C12 C14 C17 C18 C19"
+PROPS[7]="C02 C03 C05 C06 C07 C11 C17 C18 C19 C20"
+PROPS[8]="C02 C03 C04 C05 C08 C09 C10 C11 C16 C18"
+PROPS[9]="C02 C03 C05 C07 C12 C14 C16 C18"
+PROPS[10]="C02 C03 C10 C13 C16 C17 C18 C19 C20"
+PROPS[11]="C01 C03 C05 C16 C18 C19"
+PROPS[12]="C03 C04 C08 C09 C13 C16 C17 C18"
 cd /verif
-for a in ${AGENTS:-1 2 3 4 5 6 7 8}; do for k in 1 2 3 4 5; do
+for a in ${AGENTS:-1 2 3 4 5 6 7 8 9 10 11 12}; do for k in 1 2 3 4 5; do
   P=/verif/quiet/set$a/refactor_$k.diff
   [ -f $P ] || continue
   git -C /var/tmp/repo_rf apply $P || { echo "== refac_$a/$k DOES NOT APPLY"; continue; }
